@@ -3,6 +3,7 @@ package exec
 import (
 	"sort"
 
+	"github.com/ChrisTrenkamp/xsel/node"
 	"github.com/ChrisTrenkamp/xsel/store"
 )
 
@@ -148,13 +149,15 @@ func selectFollowing(nodeSet NodeSet) Result {
 }
 
 func appendFollowing(cursor store.Cursor, result []store.Cursor) []store.Cursor {
-	parent := cursor.Parent()
-
-	if parent.Pos() == 0 {
+	if isRoot(cursor) {
 		return result
 	}
 
-	found := false
+	parent := cursor.Parent()
+
+	// Attribute and namespace nodes come before the children of their
+	// element in document order, and have no descendants of their own.
+	found := !isTreeNode(cursor)
 
 	for _, i := range parent.Children() {
 		if i.Pos() == cursor.Pos() {
@@ -171,6 +174,17 @@ func appendFollowing(cursor store.Cursor, result []store.Cursor) []store.Cursor 
 	return appendFollowing(parent, result)
 }
 
+// isTreeNode returns false for attribute and namespace nodes, which are not
+// children of their parent element.
+func isTreeNode(cursor store.Cursor) bool {
+	switch cursor.Node().(type) {
+	case node.Namespace, node.Attribute:
+		return false
+	}
+
+	return true
+}
+
 func selectFollowingSibling(nodeSet NodeSet) Result {
 	result := make([]store.Cursor, 0)
 
@@ -182,23 +196,19 @@ func selectFollowingSibling(nodeSet NodeSet) Result {
 }
 
 func appendFollowingSibling(cursor store.Cursor, result []store.Cursor) []store.Cursor {
-	parent := cursor.Parent()
-
-	if parent.Pos() == 0 {
+	if isRoot(cursor) || !isTreeNode(cursor) {
 		return result
 	}
 
-	children := parent.Children()
-	start := 0
+	children := cursor.Parent().Children()
 
 	for i := range children {
 		if children[i].Pos() == cursor.Pos() {
-			start = i
-			break
+			return append(result, children[i+1:]...)
 		}
 	}
 
-	return append(result, children[start+1:]...)
+	return result
 }
 
 func selectNamespace(nodeSet NodeSet) Result {
@@ -236,12 +246,11 @@ func selectPreceding(nodeSet NodeSet) Result {
 }
 
 func appendPreceding(cursor store.Cursor, result []store.Cursor) []store.Cursor {
-	parent := cursor.Parent()
-
-	if parent.Pos() == 0 {
+	if isRoot(cursor) {
 		return result
 	}
 
+	parent := cursor.Parent()
 	found := false
 	children := parent.Children()
 
@@ -271,21 +280,17 @@ func selectPrecedingSibling(nodeSet NodeSet) Result {
 }
 
 func appendPrecedingSibling(cursor store.Cursor, result []store.Cursor) []store.Cursor {
-	parent := cursor.Parent()
-
-	if parent.Pos() == 0 {
+	if isRoot(cursor) || !isTreeNode(cursor) {
 		return result
 	}
 
-	children := parent.Children()
-	end := 0
+	children := cursor.Parent().Children()
 
 	for i := len(children) - 1; i >= 0; i-- {
 		if children[i].Pos() == cursor.Pos() {
-			end = i
-			break
+			return append(result, children[:i]...)
 		}
 	}
 
-	return append(result, children[:end]...)
+	return result
 }
